@@ -257,3 +257,92 @@ Example clean_windows_examples :
   /\ clean W [92;97;92;46;46;92;63;63;92;99]%N = [92;46;92;63;63;92;99]%N
   /\ clean W [47;47;104;47;115;47;120;47;46;46]%N = [92;92;104;92;115;92]%N.
 Proof. vm_compute. repeat split. Qed.
+
+(* ---- a cleaned body is a fixed point --------------------------------------------- *)
+Lemma nthb0_render r (l : list str) :
+  Forall (sepfreeO W) l -> Forall (fun c : str => c <> []) l -> sepW (nthb (renderO W r l) 0) = r.
+Proof.
+  intros Hsf Hne. unfold renderO. destruct r; [reflexivity|].
+  destruct l as [|x l0] eqn:El; [reflexivity|]. rewrite <- El in *.
+  destruct (@intercalate_headO W l) as (a & s & Hi & Ha); auto; [rewrite El; discriminate|].
+  rewrite Hi. exact Ha.
+Qed.
+
+Lemma win_body_fix r k (names : list str) :
+  Forall (goodO W) names -> (r = true -> k = 0) ->
+  win_body (renderO W r (LO k names)) = renderO W r (LO k names).
+Proof.
+  intros Hg Hk. pose proof (@L_sepfreeO W k names Hg) as Hsf. pose proof (@L_neO W k names Hg) as Hne.
+  unfold win_body. rewrite (nthb0_render r Hsf Hne). f_equal. unfold ncompsO. rewrite (nthb0_render r Hsf Hne).
+  unfold renderO. destruct r.
+  - rewrite comps_sepO, norm_emptyO. destruct (LO k names) eqn:EL; [reflexivity|]. rewrite <- EL in *.
+    rewrite comps_intercalateO by (auto; rewrite EL; discriminate). apply (@norm_fixO W); assumption.
+  - destruct (LO k names) eqn:EL; [reflexivity|]. rewrite <- EL in *.
+    rewrite comps_intercalateO by (auto; rewrite EL; discriminate). apply (@norm_fixO W); assumption.
+Qed.
+
+Lemma win_body_idem (path : str) : win_body (win_body path) = win_body path.
+Proof.
+  unfold win_body at 2 3. destruct (ncompsO_shape W path) as (k & names & E & Hg & Hk). rewrite E.
+  apply win_body_fix; assumption.
+Qed.
+
+Lemma win_body_nonempty (path : str) : win_body path <> [].
+Proof.
+  unfold win_body, renderO. destruct (sepW (nthb path 0)); [discriminate|].
+  destruct (ncompsO_shape W path) as (k & names & E & Hg & _). rewrite E.
+  destruct (LO k names) eqn:EL; [discriminate|]. rewrite <- EL. intros H.
+  apply intercalate_nil_invO in H; [congruence|]. apply (@L_neO W). exact Hg.
+Qed.
+
+Lemma from_slash_idem (s : str) : from_slash W (from_slash W s) = from_slash W s.
+Proof. destruct (slash_windows_roundtrip s) as (_ & _ & H). exact H. Qed.
+
+(* Clean is idempotent whenever the cleaned path is seen with the same volume length.  PARTIAL: the
+   hypothesis on the volume of the result is proved below for drive designators only; without volume
+   Clean is NOT idempotent in general (clean_windows_stale). *)
+Theorem clean_windows_idempotent_partial (p : str) :
+  let v := volume_name_len W p in
+  v <> 0 -> skipn v p <> [] -> volume_name_len W (clean W p) = v ->
+  clean W (clean W p) = clean W p.
+Proof.
+  intros v Hv Hne Hvq. pose proof (clean_windows_vol p Hv Hne) as Eq. fold v in Eq.
+  set (V := from_slash W (firstn v p)) in *. set (body := win_body (skipn v p)) in *.
+  assert (HlV : length V = v).
+  { unfold V. cbn [from_slash]. rewrite map_length, firstn_length. pose proof (volume_name_len_le W p). fold v in H. lia. }
+  assert (Hsk : skipn v (V ++ body) = body) by (rewrite <- HlV; apply skipn_app_at).
+  assert (Hfi : firstn v (V ++ body) = V) by (rewrite <- HlV; apply firstn_app_at).
+  rewrite Eq. rewrite Eq in Hvq.
+  assert (Hne2 : skipn (volume_name_len W (V ++ body)) (V ++ body) <> []).
+  { rewrite Hvq, Hsk. apply win_body_nonempty. }
+  pose proof (@clean_windows_vol (V ++ body)) as E2. cbv zeta in E2.
+  rewrite E2; [|rewrite Hvq; exact Hv|exact Hne2]. clear E2.
+  rewrite Hvq, Hsk, Hfi. unfold V at 1. rewrite from_slash_idem. fold V. f_equal. apply win_body_idem.
+Qed.
+
+(* drive designators: any first byte other than '/', then ':' *)
+Theorem clean_windows_idempotent_drive (c : N) (rest : str) :
+  c <> SLASH -> clean W (clean W (c :: COLON :: rest)) = clean W (c :: COLON :: rest).
+Proof.
+  intros Hc. set (p := c :: COLON :: rest).
+  assert (HV : from_slash W [c; COLON] = [c; COLON]).
+  { apply from_slash_id_W. intros [E|[E|[]]]; [congruence|discriminate]. }
+  destruct rest as [|r0 rest'].
+  - (* a bare drive: "C:" -> "C:." *)
+    assert (E0 : clean W p = [c; COLON; DOT]).
+    { unfold p. rewrite clean_windows_volume_only by reflexivity.
+      change (is_slash (nthb [c; COLON] 1)) with false. rewrite andb_false_r. reflexivity. }
+    rewrite E0.
+    rewrite (@clean_windows_vol [c; COLON; DOT]) by (cbn; discriminate).
+    change (volume_name_len W [c; COLON; DOT]) with 2. cbn [firstn skipn]. rewrite HV. reflexivity.
+  - apply clean_windows_idempotent_partial.
+    + discriminate.
+    + discriminate.
+    + rewrite (@clean_windows_vol p) by (cbn; discriminate).
+      change (volume_name_len W p) with 2. change (firstn 2 p) with [c; COLON]. rewrite HV. reflexivity.
+Qed.
+
+Example clean_windows_idempotent_example :
+  clean W [67;58;47;97;47;46;46;47;98;47]%N = [67;58;92;98]%N
+  /\ clean W [67;58;92;98]%N = [67;58;92;98]%N.
+Proof. vm_compute. split; reflexivity. Qed.
